@@ -637,11 +637,23 @@ def _atom_inv(i):
     return W.atom(j)
 
 
+NILPOTENT = {}     # atom index -> largest power kept (eps^(N+1) = 0): truncated power-series arithmetic
+
+
 def _rawmul(a, b):
     t = {}
+    nil = NILPOTENT
     for m1, c1 in a.t.items():
         for m2, c2 in b.t.items():
             m = _mono_mul(m1, m2)
+            if nil:
+                drop = False
+                for i, e in m:
+                    if i in nil and e > nil[i]:
+                        drop = True
+                        break
+                if drop:
+                    continue
             v = t.get(m, 0) + c1 * c2
             if v:
                 t[m] = v
